@@ -60,11 +60,14 @@ func (c c22case) String() string {
 var families = []string{"legacy", "keyed-unsigned", "keyed-signedflag", "session", "session-offset", "unsigned",
 	// signed commands: the player holds an identified key (keyed) / the command carries argument signatures
 	// (session); forceKeyAuthentication on (the default) and off ("-noforce")
-	"keyed-key-v2", "keyed-key-v2-noforce", "keyed-key-v1", "session-signed", "session-signed-noforce"}
+	"keyed-key-v2", "keyed-key-v2-noforce", "keyed-key-v1", "session-signed", "session-signed-noforce",
+	// quantifier audit: the signed session command on the other side of the 1.20.5 gate (a 1.20.5+ client still sends
+	// SessionPlayerCommand when an argument is signed; a rewritten one is rebuilt as UnsignedPlayerCommand there)
+	"session-signed-1.21", "session-signed-1.21-noforce"}
 
 // signedForce: families where rewriting the command makes the proxy disconnect the player (illegal protocol
 // state) instead of delivering a command whose signature no longer matches.
-var signedForce = map[string]bool{"keyed-key-v2": true, "session-signed": true}
+var signedForce = map[string]bool{"keyed-key-v2": true, "session-signed": true, "session-signed-1.21": true}
 
 type vKey struct {
 	crypto.IdentifiedKey // only KeyRevision is consulted on this path
@@ -81,11 +84,13 @@ var familyProtocol = map[string]proto.Protocol{
 	"session-offset":   version.Minecraft_1_19_4.Protocol,
 	"unsigned":         version.Minecraft_1_21.Protocol,
 
-	"keyed-key-v2":           version.Minecraft_1_19_1.Protocol,
-	"keyed-key-v2-noforce":   version.Minecraft_1_19_1.Protocol,
-	"keyed-key-v1":           version.Minecraft_1_19.Protocol,
-	"session-signed":         version.Minecraft_1_20_3.Protocol,
-	"session-signed-noforce": version.Minecraft_1_20_3.Protocol,
+	"keyed-key-v2":                version.Minecraft_1_19_1.Protocol,
+	"keyed-key-v2-noforce":        version.Minecraft_1_19_1.Protocol,
+	"keyed-key-v1":                version.Minecraft_1_19.Protocol,
+	"session-signed":              version.Minecraft_1_20_3.Protocol,
+	"session-signed-noforce":      version.Minecraft_1_20_3.Protocol,
+	"session-signed-1.21":         version.Minecraft_1_21.Protocol,
+	"session-signed-1.21-noforce": version.Minecraft_1_21.Protocol,
 }
 
 var treeNames = []string{"none", "a", "a{b}", "a[perm]", "a{b[perm]}", "a(non-exec){b}", "a(run-error)", "a{<int>}", "a[perm]{b}+alias:al"}
@@ -97,6 +102,20 @@ const aliasTree = 8
 var incompleteLines = map[int]map[string]bool{5: {"a": true}}
 
 var lines = []string{"a", "a b", "a x", "a 5", "b", "", " a", "a ", "A", "a  b", "/a", "/a b", "//b"}
+
+// auditLines (quantifier audit, "all command lines"): a non-ASCII argument, and lines containing a character that
+// Minecraft chat forbids (section sign / control character): for those the proxy - like vanilla - disconnects the
+// player; then the command must vanish completely (neither run nor delivered), otherwise the normal rule applies.
+var auditLines = []string{"b \u00e9", "b \u00a7", "a\x01"}
+
+func illegalLine(s string) bool { // written from the Minecraft rule, not taken from pkg/util/validation
+	for _, c := range s {
+		if c == 0xa7 || c < 0x20 || c == 0x7f {
+			return true
+		}
+	}
+	return false
+}
 
 // aliasLines are added for the alias tree (and for tree "none" as the control: the same lines name nothing there).
 var aliasLines = []string{"al", "al b", "AL"}
@@ -160,7 +179,7 @@ func clientPacket(c c22case) proto.Packet {
 		return &chat.KeyedPlayerCommand{Unsigned: true, Command: c.Line, Timestamp: c22t0}
 	case "keyed-signedflag", "keyed-key-v2", "keyed-key-v2-noforce", "keyed-key-v1":
 		return &chat.KeyedPlayerCommand{Unsigned: false, Command: c.Line, Timestamp: c22t0}
-	case "session-signed", "session-signed-noforce":
+	case "session-signed", "session-signed-noforce", "session-signed-1.21", "session-signed-1.21-noforce":
 		return &chat.SessionPlayerCommand{Command: c.Line, Timestamp: c22t0, Salt: 7,
 			ArgumentSignatures: chat.ArgumentSignatures{Entries: []chat.ArgumentSignature{{Name: "n", Signature: make([]byte, 256)}}}}
 	case "session":
@@ -280,6 +299,15 @@ func runC22(c c22case) (fails []c22fail, class string, hung bool) {
 	// forceKeyAuthentication the defined outcome is that the proxy disconnects the player. Then (and only
 	// then) "nothing reached the backend" is accepted where the statement promises one delivery.
 	kicked := signedForce[c.Family] && c.Rw && !c.Deny && client.closes > 0
+	if illegalLine(c.Line) && client.closes > 0 {
+		if len(rr.runs) != 0 {
+			bad("illegal-characters/kicked-but-executed", "player was disconnected for illegal characters in %q, proxy still ran %v", c.Line, rr.runs)
+		}
+		if len(cmds) != 0 {
+			bad("illegal-characters/kicked-but-reached-backend", "player was disconnected for illegal characters in %q, backend still received %q", c.Line, cmds)
+		}
+		return fails, "kicked-illegal-characters", false
+	}
 	needsPerm, registered := topNeedsPerm[firstToken(eff)]
 	names := registered && (!needsPerm || c.Perm)
 
@@ -379,6 +407,9 @@ func forEachC22(thorough bool, f func(c c22case)) {
 				lns := lines
 				if (t == aliasTree || t == 0) && !skipNew {
 					lns = append(append([]string(nil), lines...), aliasLines...)
+				}
+				if !skipNew {
+					lns = append(append([]string(nil), lns...), auditLines...)
 				}
 				for _, ln := range lns {
 					for _, e := range evs {
